@@ -977,7 +977,16 @@ func orderErrStore(r *engine.Run, rule string) {
 				// only slots of node objects: the loaders (Deserialize, VerifyBlockProof) replace
 				// the trie's root wholesale, on failure as on success
 				if nm := namedOf(base.Type()); nm == nil || !strings.HasSuffix(nm.Obj().Name(), "Node") {
-					continue
+					// ... but the root slot of the trie itself counts when the result comes from
+					// one of the walks (Update installing what insert/delete returned)
+					isWalk := false
+					if sc := c.Call.StaticCallee(); sc != nil && (sc.Name() == "insert" || sc.Name() == "delete") && recvNamed(sc) == "WeightedMerkleTrie" {
+						isWalk = true
+					}
+					fa, isFA := st.Addr.(*ssa.FieldAddr)
+					if !(isWalk && isFA && engine.FieldOf(fa).Name() == "root") {
+						continue
+					}
 				}
 				if al, fresh := base.(*ssa.Alloc); fresh && al.Heap {
 					if _, isStruct := al.Type().Underlying().(*types.Pointer).Elem().Underlying().(*types.Struct); isStruct {
